@@ -224,7 +224,7 @@ class NDOptionBase (packet_base):
 
   def pack (self):
     d = self._pack_body()
-    while (len(d)+2) % 8: d += "\x00" # sloppy
+    while (len(d)+2) % 8: d += b"\x00" # sloppy
     return struct.pack("BB", self.TYPE, (len(d)+2)//8) + d
 
   @classmethod
@@ -368,7 +368,7 @@ class NDOptPrefixInformation (NDOptionBase):
   def pack (self):
     s = struct.pack("!BBII", self.prefix_length, self.flags,
         self.valid_lifetime,self.preferred_lifetime)
-    s += '\x00' * 4
+    s += b'\x00' * 4
     s += self.prefix.raw
     return s
 
@@ -509,7 +509,7 @@ class NDRouterSolicitation (icmp_base):
     return offset,o
 
   def pack (self):
-    o = '\x00' * 4 # _PAD4
+    o = b'\x00' * 4 # _PAD4
     for opt in self.options:
       o += opt.pack()
     return o
@@ -578,7 +578,7 @@ class NDRouterAdvertisement (icmp_base):
     return f
 
   def pack (self):
-    o = '\x00' * 4 # _PAD4
+    o = b'\x00' * 4 # _PAD4
 
     o += struct.pack("!BBHII", self.hop_limit, self.flags, self.lifetime,
         self.reachable, self.retrans_time)
@@ -630,7 +630,7 @@ class NDNeighborSolicitation (icmp_base):
     return offset,o
 
   def pack (self):
-    o = '\x00' * 4 # _PAD4
+    o = b'\x00' * 4 # _PAD4
     o += self.target.raw
     for opt in self.options:
       o += opt.pack()
@@ -700,8 +700,8 @@ class NDNeighborAdvertisement (icmp_base):
     if self.is_router: o |= self.ROUTER_FLAG
     if self.is_solicited: o |= self.SOLICITED_FLAG
     if self.is_override : o |= self.OVERRIDE_FLAG
-    o = chr(o)
-    o += '\x00' * 3 # _PAD3
+    o = bytes([o])
+    o += b'\x00' * 3 # _PAD3
     o += self.target.raw
     for opt in self.options:
       o += opt.pack()
@@ -720,11 +720,7 @@ class TimeExceeded (icmp_base):
     self._init(kw)
 
   def _fields (self):
-    f = ['mtu']
-    r = {}
-    for ff in f:
-      r[ff] = getattr(self, ff)
-    return r
+    return {}
 
   @classmethod
   def unpack_new (cls, raw, offset = 0, buf_len = None, prev = None):
@@ -749,6 +745,8 @@ class TimeExceeded (icmp_base):
 
   def hdr (self, payload):
     return struct.pack('!I', 0) # Unused
+
+  pack = packet_base.pack
 
 
 class PacketTooBig (icmp_base):
@@ -779,7 +777,7 @@ class PacketTooBig (icmp_base):
     if buf_len is None: buf_len = len(raw)
 
     try:
-      o.mtu = struct.unpack_from("!I", raw, offset)
+      o.mtu = struct.unpack_from("!I", raw, offset)[0]
       offset += 4
 
       o.next = raw[offset:buf_len]
@@ -795,6 +793,8 @@ class PacketTooBig (icmp_base):
 
   def hdr (self, payload):
     return struct.pack('!I', self.mtu)
+
+  pack = packet_base.pack
 
 
 class unpack_new_adapter (object):
@@ -881,6 +881,7 @@ class unreach (packet_base, unpack_new_adapter):
   MIN_LEN = 4
 
   def __init__ (self, raw=None, prev=None, **kw):
+    packet_base.__init__(self)
 
     self.prev = prev
 
@@ -892,9 +893,7 @@ class unreach (packet_base, unpack_new_adapter):
     self._init(kw)
 
   def __str__ (self):
-    s = ''.join(('[', 'm:', str(self.next_mtu), ']'))
-
-    return _str_rest(s, self)
+    return '[ICMPv6/unreach]'
 
   def parse (self, raw):
     assert isinstance(raw, bytes)
@@ -909,10 +908,10 @@ class unreach (packet_base, unpack_new_adapter):
 
     self.parsed = True
 
-    from . import ipv6
+    from .ipv6 import ipv6
     # xxx We're assuming this is IPv6!
     if dlen >= 8 + ipv6.MIN_LEN:
-      self.next = ipv6.ipv6(raw=raw[unreach.MIN_LEN:],prev=self)
+      self.next = ipv6(raw=raw[unreach.MIN_LEN:],prev=self)
     else:
       self.next = raw[unreach.MIN_LEN:]
 
@@ -1001,8 +1000,12 @@ class icmpv6 (packet_base):
       self.next = raw[self.MIN_LEN:]
       return
 
-    offset,self.next = cls.unpack_new(raw, offset=self.MIN_LEN,
-        buf_len=buf_len,prev=self)
+    try:
+      offset,self.next = cls.unpack_new(raw, offset=self.MIN_LEN,
+          buf_len=buf_len,prev=self)
+    except Exception as e:
+      self.msg('(icmpv6 parse) malformed %s: %s' % (cls.__name__, e))
+      self.next = raw[self.MIN_LEN:]
 
 
   def hdr (self, payload):
